@@ -311,6 +311,15 @@ class FakeTime:
     def monotonic(self):
         return self._s.now
 
+    def perf_counter(self):
+        return self._s.now
+
+    def time_ns(self):
+        return int(self._s.time() * 1e9)
+
+    def monotonic_ns(self):
+        return int(self._s.now * 1e9)
+
     def sleep(self, d):
         if d and d > 0:
             self._s.block(None, d, "sleep")
@@ -362,6 +371,29 @@ class SimLock:
         self.release()
 
 
+class SimRLock(SimLock):
+    """Re-entrant variant (threading.RLock)."""
+
+    def __init__(self, sched, name="rlock"):
+        super().__init__(sched, name)
+        self.depth = 0
+
+    def acquire(self, blocking=True, timeout=-1):
+        if self.owner is self._s.current and self.owner is not None:
+            self.depth += 1
+            return True
+        ok = super().acquire(blocking, timeout)
+        if ok:
+            self.depth = 1
+        return ok
+
+    def release(self):
+        self.depth -= 1
+        if self.depth <= 0:
+            self.depth = 0
+            super().release()
+
+
 class SimEvent:
     def __init__(self, sched):
         self._s = sched
@@ -398,7 +430,24 @@ class FakeThreading:
     def Event(self):
         return SimEvent(self._s)
 
+    def RLock(self):
+        return SimRLock(self._s)
+
+    def Timer(self, interval, function, args=None, kwargs=None):
+        s = self._s
+        ev = SimEvent(s)
+
+        def run():
+            if not ev.wait(interval):
+                function(*(args or ()), **(kwargs or {}))
+
+        t = SimThread(s, run, (), None, "timer")
+        t.cancel = ev.set
+        return t
+
     def __getattr__(self, n):
+        if n in ("Condition", "Semaphore", "BoundedSemaphore", "Barrier"):
+            raise HarnessStuck(f"the code under test uses threading.{n}, which the simulated scheduler does not model")
         return getattr(_real_threading, n)
 
 
@@ -767,21 +816,30 @@ def installed(sched, net):
     import websocket._socket as SK
 
     ft, fth, fsel = FakeTime(sched), FakeThreading(sched), FakeSelectors(sched)
-    saved = [
-        (APP, "time", APP.time), (APP, "threading", APP.threading), (CORE, "time", CORE.time), (CORE, "threading", CORE.threading),
-        (D, "time", D.time), (D, "selectors", D.selectors), (SK, "selectors", SK.selectors),
-        (H, "socket", H.socket), (H, "ssl", H.ssl),
-    ]
-    has_frame_lock = hasattr(A, "Lock")  # the frame parser's own lock (absent if a change removed it: nothing to substitute then)
-    if has_frame_lock:
-        saved.append((A, "Lock", A.Lock))
-    if hasattr(APP, "selectors"):
-        saved.append((APP, "selectors", APP.selectors))
-        APP.selectors = fsel
-    APP.time, APP.threading, CORE.time, CORE.threading = ft, fth, ft, fth
-    D.time, D.selectors, SK.selectors = ft, fsel, fsel
-    if has_frame_lock:
-        A.Lock = lambda: SimLock(sched, "frame")
+    saved = [(H, "socket", H.socket), (H, "ssl", H.ssl)]
+    # Every module of the package gets the fakes wherever it holds the real module (`import time`) or one of the real
+    # objects by name (`from threading import Lock`, `from time import sleep`) - wherever a change may have put them.
+    import selectors as _real_selectors
+    import sys as _sys
+
+    mods = {id(_real_time): ft, id(_real_threading): fth, id(_real_selectors): fsel}
+    objs = {
+        id(_real_time.time): ft.time, id(_real_time.sleep): ft.sleep, id(_real_time.monotonic): ft.monotonic, id(_real_time.perf_counter): ft.perf_counter,
+        id(_real_threading.Lock): fth.Lock, id(_real_threading.RLock): fth.RLock, id(_real_threading.Event): fth.Event, id(_real_threading.Thread): fth.Thread,
+        id(_real_threading.Timer): fth.Timer, id(_real_selectors.DefaultSelector): fsel.DefaultSelector,
+    }
+    for mname, mod in list(_sys.modules.items()):
+        if mod is None or not (mname == "websocket" or mname.startswith("websocket.")) or mname.startswith("websocket.tests"):
+            continue
+        for attr, val in list(vars(mod).items()):
+            if attr.startswith("__"):
+                continue
+            rep = mods.get(id(val)) if isinstance(val, type(_real_time)) else objs.get(id(val))
+            if rep is not None:
+                saved.append((mod, attr, val))
+                if mod is A and attr == "Lock":
+                    rep = lambda: SimLock(sched, "frame")  # noqa: E731  (the frame parser's own lock)
+                setattr(mod, attr, rep)
     H.socket, H.ssl = _SockMod(net), _SSLMod(net)
     try:
         yield
